@@ -50,7 +50,28 @@ type genFrame struct {
 	body   []byte
 }
 
-func (f genFrame) tok() string { return verTok(f.ver, f.hasVer) + ":" + showBytes(f.body) }
+func (f genFrame) tok() string { return verTok(f.ver, f.hasVer) + ":" + compactBytes(f.body) }
+
+// bigFrames: frames of a megabyte and more; a read that fails inside such a body, then complete frames
+func (g *G) bigFrames() {
+	mk := func(n int, fill byte) genFrame {
+		b := bytes.Repeat([]byte{fill}, n)
+		copy(b, g.bytes(5, 3))
+		copy(b[n-3:], g.bytes(3, 3))
+		return genFrame{hasVer: true, ver: []byte("3.1"), body: b}
+	}
+	f1, f2, f3 := mk(1<<20+100, 0xaa), mk(1<<20+7, 0xbb), mk(1<<20, 0xcc)
+	st1 := streamOf([]genFrame{f1})
+	g.emit("pbs %s %d eof 0 %s", f1.tok(), 32+600000, compactBytes(st1[:32+600000]))
+	st2 := streamOf([]genFrame{f2})
+	g.emit("pbs %s -1 eof 2 %s", f2.tok(), compactBytes(st2))
+	small := genFrame{hasVer: false, body: []byte{1, 2, 3}}
+	all := []genFrame{f3, small, f1}
+	g.emit("pbs %s -1 eof 0 %s", framesTok(all), compactBytes(streamOf(all)))
+	st3 := streamOf(all)
+	g.emit("pbs %s %d inj 0 %s", framesTok(all), len(st3)-500, compactBytes(st3[:len(st3)-500]))
+	g.emit("pbs %s -1 eof 3 %s", f3.tok(), compactBytes(streamOf([]genFrame{f3})))
+}
 
 // stream marshals the frames with the real Marshal (raw messages: encoding = body)
 func streamOf(frames []genFrame) []byte {
@@ -121,12 +142,13 @@ func init() {
 				frames[i] = g.frame(bodyLens)
 			}
 			st := streamOf(frames)
-			g.emit("pbs %s -1 eof %d %s", framesTok(frames), g.intn(4), showBytes(st))
+			g.emit("pbs %s -1 eof %d %s", framesTok(frames), g.intn(4), compactBytes(st))
 			if len(st) >= 32 {
 				g.emit("pbh %s eof", showBytes(st[:32+g.intn(len(st)-31)]))
 			}
 		}
 		g.emit("pbs - -1 eof 0 x")
+		g.bigFrames()
 	}
 
 	gens["C07"] = func(g *G) {
@@ -148,16 +170,17 @@ func init() {
 				if g.intn(5) == 0 {
 					end = "inj" // read error injected at this offset
 				}
-				g.emit("pbs %s %d %s %d %s", ft, cut, end, g.intn(4), showBytes(st[:cut]))
+				g.emit("pbs %s %d %s %d %s", ft, cut, end, g.intn(4), compactBytes(st[:cut]))
 			}
 		}
 		if g.thorough() {
 			f := genFrame{hasVer: true, ver: []byte("2.0"), body: g.bytes(70000, 3)}
 			st := streamOf([]genFrame{f})
 			for _, cut := range []int{0, 1, 31, 32, 33, 34, 4095, 4096, 4097, 65535, 65536, len(st) - 2, len(st) - 1} {
-				g.emit("pbs %s %d eof %d %s", f.tok(), cut, g.intn(4), showBytes(st[:cut]))
+				g.emit("pbs %s %d eof %d %s", f.tok(), cut, g.intn(4), compactBytes(st[:cut]))
 			}
 		}
+		g.bigFrames()
 		// writer failing at every k: partial acceptance and all-or-nothing
 		for rep := 0; rep < g.n(30, 300); rep++ {
 			kind := []string{"raw", "bv"}[g.intn(2)]
@@ -172,6 +195,10 @@ func init() {
 			body := encodingOf(kind, ver, payload)
 			for k := 0; k < 32+len(body); k++ {
 				g.emit("pbmk %s %s %s %s %d %d", kind, verTok(v, hasVer), showBytes(payload), showBytes(body), k, g.intn(2))
+			}
+			// a writer that takes a write in full and still reports an error (on the header, on the body)
+			for _, k := range []int{1, 31, 32, 33, 32 + len(body), 32 + len(body) + 1} {
+				g.emit("pbmk %s %s %s %s %d 2", kind, verTok(v, hasVer), showBytes(payload), showBytes(body), k)
 			}
 		}
 		// arbitrary / corrupted headers: header-size and body-size fields set to any uint64
